@@ -57,6 +57,7 @@ def run_history(case):
     Amsid = refdict.cls_obj("AcctMultiSessionIdAVP")
     issued = []          # (id string, step, how, identity)
     msgs = []
+    shared = {}
     vs = []
     try:
         iu.SessionHandler.reset()          # "process start" at virtual time T0
@@ -65,6 +66,11 @@ def run_history(case):
             try:
                 if k == "tick":
                     fake.now = fake.now + real_datetime.timedelta(seconds=op["d"])
+                    continue
+                if k == "ffwd":
+                    # fast-forward of a long-lived process: as if 2^k - 2 Session-Ids had been generated so far (below 2^32)
+                    if iu.SessionHandler.id < 2**op["k"] - 2:
+                        iu.SessionHandler.id = 2**op["k"] - 2
                     continue
                 if k == "bytes":
                     raw = bytes.fromhex(op["x"])
@@ -109,11 +115,16 @@ def run_history(case):
                                                   user_name="001010000000001", visited_plmn_id=b"\x00\xf1\x10")
                     msgs.append(m)
                     sid = m.session_id_avp.data
-                elif k == "update":
+                elif k in ("update", "update-shared"):
                     if not msgs:
                         continue
                     m = msgs[op["msg"] % len(msgs)]
-                    m.update_avps({"origin_host": ident})
+                    if k == "update-shared":
+                        # the application keeps one dict for "move this message to origin X" and passes it to message after message
+                        shared["origin_host"] = ident
+                        m.update_avps(shared)
+                    else:
+                        m.update_avps({"origin_host": ident})
                     sid = m.session_id_avp.data
                     # the id on the wire must be the regenerated one as well
                     wire = [a for a in m.avps if type(a).__name__ == "SessionIdAVP"]
@@ -139,7 +150,7 @@ def run_history(case):
                 vs.append(V("high and low parts fit 32 bits", f"range/{how}", text))
             for (other, ostep, ohow, oident) in issued:
                 if other == text:
-                    switched = any(o["op"] == "update" for o in case["ops"][:step])
+                    switched = any(o["op"] in ("update", "update-shared") for o in case["ops"][:step])
                     vs.append(V("every generated Session-Id is distinct from every other generated in the process",
                                 "duplicate/" + ("after-bulk-origin-update" if switched else "no-update-involved"),
                                 f"steps {ostep} ({ohow}) and {step} ({how}) both produced {text!r}"))
@@ -169,6 +180,8 @@ op = st.one_of(
     st.builds(lambda i, c: {"op": "typed", "ident": i, "cls": c}, ident, st.sampled_from(["ulr", "aia"])),
     st.builds(lambda m, i: {"op": "update", "msg": m, "ident": i}, st.integers(0, 5), ident),
     st.builds(lambda m, i: {"op": "update", "msg": m, "ident": i}, st.integers(0, 5), ident),
+    st.builds(lambda m, i: {"op": "update-shared", "msg": m, "ident": i}, st.integers(0, 5), ident),
+    st.builds(lambda k: {"op": "ffwd", "k": k}, st.sampled_from([8, 16, 24, 28, 30, 31])),
     st.builds(lambda x: {"op": "bytes", "x": x.hex()}, st.binary(max_size=20)),
     st.builds(lambda h, l, d: {"op": "typed-foreign", "high": h, "low": l, "decoded": d},
               st.sampled_from([1, 2**31, 2**32 - 1, 3923553690, 3923553600, 3923553599]), st.integers(0, 9), st.booleans()),
@@ -210,7 +223,12 @@ def features(case):
         if o["op"] == "typed":
             last_ident[n_msgs] = o["ident"]
             n_msgs += 1
-        if o["op"] == "update" and n_msgs:
+        if o["op"] == "ffwd":
+            f.add("counter-fast-forward")
+            continue
+        if o["op"] == "update-shared" and n_msgs:
+            f.add("bulk-update-with-a-reused-dict")
+        if o["op"] in ("update", "update-shared") and n_msgs:
             k = o["msg"] % n_msgs
             if last_ident.get(k) == "foreign":
                 f.add("bulk-origin-update-of-a-foreign-session-id")
